@@ -14,4 +14,10 @@ def promotionBlock (src_flags mask_flags dest_flags : Nat) : Nat × Nat × Nat :
   let mask_flags := if ((mask_flags &&& NEAREST_OPAQUE) == NEAREST_OPAQUE) || ((mask_flags &&& BILINEAR_OPAQUE) == BILINEAR_OPAQUE) then mask_flags ||| FAST_PATH_IS_OPAQUE else mask_flags
   (src_flags, mask_flags, dest_flags)
 
+/-- `LERP_CHANNEL (c)` of `bilinear_interpolation_float` (pixman-inlines.h), over `Rat` -/
+def lerpChannel (tl tr bl br distx disty : Rat) : Rat :=
+  let top := tl + distx * (tr - tl)
+  let bot := bl + distx * (br - bl)
+  top + disty * (bot - top)
+
 end Pixman.Gen.OpacityBlock
